@@ -117,7 +117,7 @@ func runHistory(s crashSpec) *histRun {
 	d := world.FreshDevice()
 	hr := &histRun{base: d.FS().Clone()}
 	d.ResetLog()
-	sch := vrt.Run(nil, nil, func() {
+	sch := vrt.Run(nil, func(s *vrt.Sched) { s.NoForcedTimers = true }, func() {
 		w, obs := world.Start(world.Config{BackgroundSync: true, WALRotateInterval: s.Rotate})
 		if !obs.OK() {
 			hr.failed = "startup: " + obs.String()
